@@ -31,15 +31,20 @@ FailsOfPath(e, nm) ==
     \cup (IF o.spA # e.A THEN {"sp_A"} ELSE {})
     \cup (IF e.directed = 0 /\ ~(IsSymmetric(o.adj) /\ EmptyDiagonal(o.adj)) THEN {"symmetry"} ELSE {})
     \cup (IF o.graph # e.A \/ o.graph_n # n THEN {"graph"} ELSE {})
-    \cup (IF o.w4 # w4 THEN {"node_weights"} ELSE {})
-    \cup (IF o.total4 # TotalWeight(a) THEN {"total_node_weight"} ELSE {})
-    \cup (IF ~Close(o.mean6, FxDiv(TotalWeight(a) * 250000, n, 1), Tol) THEN {"mean_node_weight"} ELSE {})
+    \cup (IF nm \notin FreeWeightPaths /\ o.w4 # w4 THEN {"node_weights"} ELSE {})
+    \cup (IF nm \notin FreeWeightPaths /\ o.total4 # TotalWeight(a) THEN {"total_node_weight"} ELSE {})
+    \cup (IF nm \notin FreeWeightPaths /\ ~Close(o.mean6, FxDiv(TotalWeight(a) * 250000, n, 1), Tol)
+          THEN {"mean_node_weight"} ELSE {})
+    \* total and mean are those of the weight vector the network reports (every path; in units of 10^-4, slack of one
+    \* unit per node for the rounding)
+    \cup (IF Abs(o.totalfine - SumN(LAMBDA k : o.wfine[k], 1, Len(o.wfine))) > n + 1 THEN {"total_node_weight(consistency)"} ELSE {})
+    \cup (IF Abs(o.meanfine * n - o.totalfine) > n + 1 THEN {"mean_node_weight(consistency)"} ELSE {})
     \* (an undirected copy keeps no attributes: i->j and j->i may carry different values)
     \cup (IF e.hasla = 1 /\ nm # "undirected_copy" /\ (o.la_exc # "" \/ o.la # LaOnLinks(e))
           THEN {"link_attribute"} ELSE {})
     \* (paths that end with unit weights are compared with the dense path on the weight-free measures only)
     \cup {"panel:" \o m : m \in {mm \in DOMAIN o.panel \cap DOMAIN e.paths["ndarray"].panel :
-                                  /\ ~(nm \in UnitWeightPaths /\ mm \in {"nsi_degree", "nsi_average_path_length"})
+                                  /\ ~(nm \in UnitWeightPaths \cup FreeWeightPaths /\ mm \in {"nsi_degree", "nsi_average_path_length"})
                                   /\ ~SameSeq(o.panel[mm], e.paths["ndarray"].panel[mm])}}
     \cup {"panel-exception:" \o m : m \in (DOMAIN o.x \ DOMAIN e.paths["ndarray"].x)
                                            \cup (DOMAIN e.paths["ndarray"].x \ DOMAIN o.x)}}
